@@ -17,7 +17,10 @@ if __name__ == "__main__":
     if len(sys.argv) < 2 or not sys.argv[1].upper().startswith("C"):
         print("usage: run_check.py <C01..C20> [--tier quick|thorough] [--replay FILE]")
         sys.exit(2)
-    harness.setup_env()
+    tier = os.environ.get("VERIF_TIER", "quick")
+    if "--tier" in sys.argv:
+        tier = sys.argv[sys.argv.index("--tier") + 1]
+    harness.setup_env(tier)
     pid = sys.argv[1].upper()
     os.chdir(HERE)
     sys.exit(harness.main("checks.%s" % pid.lower(), sys.argv[2:]))
